@@ -948,9 +948,14 @@ class Curve(BaseCurve):
         for newvector, matrix in zip(newvectors, matrices):
             matrix = np.array(matrix)
             newcurve = Curve(newvector)
-            newcurve.ctrlpoints = np.dot(matrix, self.ctrlpoints)
-            if self.weights is not None:
-                newcurve.weights = np.dot(matrix, self.weights)
+            if self.weights is None:
+                newcurve.ctrlpoints = np.dot(matrix, self.ctrlpoints)
+            else:
+                newweights = np.dot(matrix, self.weights)
+                weighted = [wi * pt for wi, pt in zip(self.weights, self.ctrlpoints)]
+                newpoints = np.dot(matrix, weighted)
+                newcurve.ctrlpoints = [pt / wi for pt, wi in zip(newpoints, newweights)]
+                newcurve.weights = newweights
             newcurves.append(newcurve)
         return tuple(newcurves)
 
